@@ -1,7 +1,7 @@
 (** [run_line]: one case line in, one observation line out (model side of the
     correspondence check). *)
 From Coq Require Import String.
-From JP Require Import Base F64 Value Sig Slice JsonRead JsonPrint Functions Interp Lexer Parser Wire Spec.SliceSpec Spec.Semantics.
+From JP Require Import Base F64 Value Sig Slice JsonRead JsonPrint Functions Interp Lexer Parser History Wire Spec.SliceSpec Spec.Semantics.
 
 Definition K_slice := Eval compute in s2l "slice".
 Definition K_index := Eval compute in s2l "index".
@@ -178,6 +178,116 @@ Definition run_speceval (ts : list tok) : list tok :=
   | [] => bad
   end.
 
+(* ---------- histories (C13, C15) ---------- *)
+Definition K_hist := Eval compute in s2l "hist".
+Definition K_new := Eval compute in s2l "new".
+Definition K_reg := Eval compute in s2l "reg".
+Definition K_dereg := Eval compute in s2l "dereg".
+Definition K_regb := Eval compute in s2l "regb".
+Definition K_get := Eval compute in s2l "get".
+Definition K_compile := Eval compute in s2l "compile".
+Definition K_clone := Eval compute in s2l "clone".
+Definition K_drop := Eval compute in s2l "drop".
+Definition K_BAD := Eval compute in s2l "BAD".
+Definition K_any := Eval compute in s2l "any".
+Definition K_null := Eval compute in s2l "null".
+Definition K_string := Eval compute in s2l "string".
+Definition K_number := Eval compute in s2l "number".
+Definition K_bool := Eval compute in s2l "bool".
+Definition K_object := Eval compute in s2l "object".
+Definition K_array := Eval compute in s2l "array".
+Definition K_expref := Eval compute in s2l "expref".
+Definition K_an := Eval compute in s2l "an".
+Definition K_as := Eval compute in s2l "as".
+
+Definition parse_argtype (t : tok) : option argtype :=
+  if str_eqb t K_any then Some TyAny else if str_eqb t K_null then Some TyNull
+  else if str_eqb t K_string then Some TyString else if str_eqb t K_number then Some TyNumber
+  else if str_eqb t K_bool then Some TyBool else if str_eqb t K_object then Some TyObject
+  else if str_eqb t K_array then Some TyArray else if str_eqb t K_expref then Some TyExpref
+  else if str_eqb t K_an then Some (TyTypedArray TyNumber) else if str_eqb t K_as then Some (TyTypedArray TyString)
+  else None.
+
+(** [-] (a plain closure) or [S t1 ... tn / v] with [v] a type or [_] *)
+Definition parse_sig (ts : list tok) : option (option signature) :=
+  match ts with
+  | [[45]] => Some None
+  | [83] :: r =>
+      (fix go (r : list tok) (acc : list argtype) : option (option signature) :=
+         match r with
+         | [47] :: [[95]] => Some (Some (mkSig (rev acc) None))
+         | [47] :: [v] => option_map (fun t => Some (mkSig (rev acc) (Some t))) (parse_argtype v)
+         | t :: r' => match parse_argtype t with Some t' => go r' (t' :: acc) | None => None end
+         | [] => None
+         end) r []
+  | _ => None
+  end.
+
+Definition rd_hop (ts : list tok) : option hop :=
+  match ts with
+  | k :: r =>
+      if str_eqb k K_new then match r with [a] => option_map HNewRt (parse_int a) | _ => None end
+      else if str_eqb k K_reg then
+        match r with
+        | a :: n :: i :: sg =>
+            match parse_int a, parse_str n, parse_int i, parse_sig sg with
+            | Some a', Some n', Some i', Some sg' => Some (HRop a' (OReg n' (FCustom i' sg')))
+            | _, _, _, _ => None
+            end
+        | _ => None
+        end
+      else if str_eqb k K_dereg then
+        match r with [a; n] => match parse_int a, parse_str n with Some a', Some n' => Some (HRop a' (ODereg n')) | _, _ => None end | _ => None end
+      else if str_eqb k K_regb then match r with [a] => option_map (fun a' => HRop a' ORegBuiltins) (parse_int a) | _ => None end
+      else if str_eqb k K_get then
+        match r with [a; n] => match parse_int a, parse_str n with Some a', Some n' => Some (HGet a' n') | _, _ => None end | _ => None end
+      else if str_eqb k K_compile then
+        match r with
+        | [h; a; t] => match parse_int h, parse_int a, parse_str t with Some h', Some a', Some t' => Some (HCompile h' a' t') | _, _, _ => None end
+        | _ => None
+        end
+      else if str_eqb k K_clone then
+        match r with [h2; h] => match parse_int h2, parse_int h with Some a, Some b => Some (HClone a b) | _, _ => None end | _ => None end
+      else if str_eqb k K_drop then match r with [h] => option_map HDrop (parse_int h) | _ => None end
+      else if str_eqb k K_search then
+        match r with
+        | h :: d => match parse_int h, rd_value (S (length d)) d with Some h', Some (v, []) => Some (HSearch h' v) | _, _ => None end
+        | [] => None
+        end
+      else None
+  | [] => None
+  end.
+
+Definition pr_hobs (o : hobs) : list tok :=
+  match o with
+  | ONone => [[45]]
+  | OBool true => [[116]]
+  | OBool false => [[102]]
+  | OCompiled _ (Ok _) => [K_OK]
+  | OCompiled text r => pr_res text (fun _ : ast => []) r
+  | OSearched text r => pr_res text pr_value r
+  | OBadHandle => [K_BAD]
+  end.
+
+Fixpoint split_toks (sep : tok) (ts : list tok) (cur : list tok) : list (list tok) :=
+  match ts with
+  | [] => [rev cur]
+  | t :: r => if str_eqb t sep then rev cur :: split_toks sep r [] else split_toks sep r (t :: cur)
+  end.
+
+Fixpoint join_obs (l : list (list tok)) : list tok :=
+  match l with
+  | [] => []
+  | [x] => x
+  | x :: r => x ++ [59] :: join_obs r
+  end.
+
+Definition run_hist (ts : list tok) : list tok :=
+  match all_some (map rd_hop (split_toks [59] ts [])) with
+  | Some ops => join_obs (map pr_hobs (hrun h0 ops))
+  | None => bad
+  end.
+
 Definition run_tokens (ts : list tok) : list tok :=
   match ts with
   | k :: r =>
@@ -190,6 +300,7 @@ Definition run_tokens (ts : list tok) : list tok :=
       else if str_eqb k K_parse_k then run_parse r
       else if str_eqb k K_speceval then run_speceval r
       else if str_eqb k K_refparse then run_refparse r
+      else if str_eqb k K_hist then run_hist r
       else if str_eqb k K_search then run_search r
       else bad
   | [] => bad
